@@ -574,4 +574,29 @@ theorem invgamma_cl_jacobian {spline dspline : ℝ → ℝ} (q x : ℝ) (hd : Ha
   have hval : invGammaClJac spline dspline q x = q * (exp (spline x) * dspline x) := rfl
   rw [hfun, hval]; exact h2
 
+/-! ## distribution-level statement: the push-forward of the standard normal has the target cdf -/
+
+/-- For a strictly increasing `T` the events `{X ≤ x}` and `{T(X) ≤ T(x)}` coincide, so `T(X)` with `X ~ N(0,1)` has cdf value
+    `Φ(x)` at `t = T(x)`.  This theorem shows that this value is the *documented target cdf* at `t`, for every `x`:
+    normal `Φ((t−μ)/σ)`, log-normal `Φ((log t−μ_ℓ)/σ_ℓ)`, uniform `(t−a)/(b−a)`, Laplace `F_Laplace((t−loc)/scale)`
+    (JAX two-branch code with `loc = 0`, classic operator). -/
+theorem pushforward_cdf (h : StdNormal Φ Φinv) {logΦ : ℝ → ℝ} (hlog : ∀ x, logΦ x = log (Φ x)) (x μ a b loc : ℝ) {σ scale : ℝ}
+    (hσ : σ ≠ 0) (hab : a ≠ b) (hs : scale ≠ 0) :
+    Φ ((normal μ σ x - μ) / σ) = Φ x ∧
+    Φ ((log (lognormal μ σ x) - μ) / σ) = Φ x ∧
+    (uniformPriorRe Φ a b x - a) / (b - a) = Φ x ∧ (uniformCl Φ a (b - a) x - a) / (b - a) = Φ x ∧
+    laplaceCdf (laplaceRe logΦ scale x / scale) = Φ x ∧
+    laplaceCdf ((laplaceCl Φ loc scale x - loc) / scale) = Φ x := by
+  have h0 := h.pos x
+  have h1 := h.lt_one x
+  have e := h.left_inv x
+  have hba : b - a ≠ 0 := sub_ne_zero.mpr (Ne.symm hab)
+  refine ⟨?_, ?_, ?_, ?_, ?_, ?_⟩
+  · have := cdf_normal h μ hσ h0 h1; rwa [e] at this
+  · have := cdf_lognormal h μ hσ h0 h1; rwa [e] at this
+  · simp only [uniformPriorRe, uniformRe]; field_simp; ring
+  · simp only [uniformCl]; field_simp; ring
+  · have := (cdf_laplace h hlog loc hs h0 h1).1; rwa [e] at this
+  · have := (cdf_laplace h hlog loc hs h0 h1).2; rwa [e] at this
+
 end NiftyVerif.C30
